@@ -3,6 +3,7 @@ package c01
 
 import (
 	"context"
+	"encoding/json"
 	"errors"
 	"io"
 	"math"
@@ -30,9 +31,59 @@ type Outer struct {
 
 // H is the server-side handler: every method records what it received and
 // returns what the harness prepared.
+// Level and Opt have their own JSON codecs, for which JSON null is not the encoding of the zero value.
+type Level int
+
+var levelNames = []string{"low", "mid", "high"}
+
+func (l Level) MarshalJSON() ([]byte, error) {
+	if l < 0 || int(l) >= len(levelNames) {
+		return nil, errors.New("bad level")
+	}
+	return json.Marshal(levelNames[l])
+}
+
+func (l *Level) UnmarshalJSON(b []byte) error {
+	var s string
+	if err := json.Unmarshal(b, &s); err != nil {
+		return err
+	}
+	for i, n := range levelNames {
+		if n == s {
+			*l = Level(i)
+			return nil
+		}
+	}
+	return errors.New("unknown level")
+}
+
+// Opt records that it went through its decoder.
+type Opt struct {
+	Decoded bool
+	N       int64
+}
+
+func (o Opt) MarshalJSON() ([]byte, error) { return json.Marshal(map[string]int64{"n": o.N}) }
+func (o *Opt) UnmarshalJSON(b []byte) error {
+	var m map[string]int64
+	if err := json.Unmarshal(b, &m); err != nil {
+		return err
+	}
+	if m == nil {
+		return nil // null: nothing to decode
+	}
+	o.Decoded, o.N = true, m["n"]
+	return nil
+}
+
 type H struct {
 	ran  string
 	fail bool
+
+	gotLvl Level
+	retLvl Level
+	gotOpt Opt
+	retOpt Opt
 
 	gotI  int64
 	gotU  uint64
@@ -97,6 +148,9 @@ func (h *H) Map(ctx context.Context, m map[string]int64) (map[string]int64, erro
 	h.gotM = m
 	return h.retM, h.err()
 }
+func (h *H) Lvl(l Level) (Level, error) { h.ran += "Lvl;"; h.gotLvl = l; return h.retLvl, h.err() }
+func (h *H) Option(o Opt) (Opt, error)  { h.ran += "Option;"; h.gotOpt = o; return h.retOpt, h.err() }
+
 func kindName(v interface{}) string {
 	switch v.(type) {
 	case nil:
@@ -160,6 +214,8 @@ type C struct {
 	Any     func(v interface{}) (string, error)
 	AnyMap  func(ctx context.Context, m map[string]interface{}) (string, error)
 	Raw     func(ctx context.Context, p jsonrpc.RawParams) (string, error)
+	Lvl     func(l Level) (Level, error)
+	Option  func(o Opt) (Opt, error)
 }
 
 type fm struct {
@@ -266,7 +322,7 @@ func HarnessShapes() {
 	c, closer := setup(h)
 	defer closer()
 	ctx := context.Background()
-	shape := verif.Choice("shape", 15)
+	shape := verif.Choice("shape", 17)
 	switch shape {
 	case 0:
 		c.Void()
@@ -427,6 +483,27 @@ func HarnessShapes() {
 			verif.Assert(h.gotF == float64(n), "loosely-typed-map-number-value")
 		} else {
 			verif.Assert(err != nil && v == "", "anymap-zero-value-on-error")
+		}
+	case 15:
+		// a type with its own codec: every member, including the zero member, round-trips through it
+		a := Level(verif.Choice("lvl_arg", 3))
+		h.retLvl = Level(verif.Choice("lvl_ret", 3))
+		v, err := c.Lvl(a)
+		verif.Assert(h.ran == "Lvl;" && h.gotLvl == a, "custom-codec-arg")
+		if h.fail {
+			verif.Assert(err != nil && v == 0, "custom-codec-zero-value-on-error")
+		} else {
+			verif.Assert(err == nil && v == h.retLvl, "custom-codec-result-round-trip")
+		}
+	case 16:
+		a := Opt{N: verif.Int("opt_arg")}
+		h.retOpt = Opt{N: verif.Int("opt_ret")}
+		v, err := c.Option(a)
+		verif.Assert(h.ran == "Option;" && h.gotOpt == Opt{Decoded: true, N: a.N}, "custom-codec-arg-goes-through-its-decoder")
+		if h.fail {
+			verif.Assert(err != nil && v == Opt{}, "custom-codec-zero-value-on-error")
+		} else {
+			verif.Assert(err == nil && v == Opt{Decoded: true, N: h.retOpt.N}, "custom-codec-result-goes-through-its-decoder")
 		}
 	}
 	verif.Reach("shape-done")
